@@ -63,7 +63,7 @@ def _c19(ctx):
         "the arrival pattern (connection arrives while the listener task is parked / while it is busy) is approximated by "
         "opening connections back to back resp. after a 40 ms pause; the verdict does not depend on it",
         "a connection counts as not served when its Reset Query is unanswered after 2.5 s and again after 4 s and 6 s on "
-        "fresh servers (later sequences of an already confirmed signature: 1 s, one attempt)",
+        "fresh servers (later sequences of an already confirmed signature: 0.7 s, one attempt)",
         "accept() errors (Listener.tla AcceptError) are outside the statement of C19; an EMFILE probe is recorded as a note only",
     ]
     rule = ("every exported sequence (1..4 connections, thorough 1..5, every subset failing setup, every quiet/burst arrival "
